@@ -176,6 +176,14 @@ def formation_edits(ctx, rid="R5"):
         got.discard("")
         detail = "vector is edited by %s" % sorted(got)
         why = [w for form, w in bad if got == form]
+        if fn == "replace" and "swap_remove" in got and not why:
+            # swap_remove(pos) keeps the order only when the element it pulls into the gap is the one that was pushed just before
+            ws = writes(fd)
+            pushes = [d.instr for d in ws if (d.info.get("callee") or "").endswith("::push")]
+            for d in ws:
+                if (d.info.get("callee") or "").endswith("::swap_remove") and not any(fd.cfg.instr_dominates(pu, d.instr) for pu in pushes):
+                    why = ["swap_remove at %s is not preceded by the push of the new vehicle: it pulls the LAST vehicle of the formation into the gap, "
+                           "so the order of the formation changes" % d.instr.line()]
         if why:
             ctx.bad(o, detail + ": " + why[0])
             continue
@@ -183,6 +191,13 @@ def formation_edits(ctx, rid="R5"):
             ctx.undecided(o, detail + " - not one of the recognised forms")
             continue
         ok = True
+        if fn == "add_at_tail":
+            # the vehicle is appended on every path: whether the same vehicle is already part of the formation is the callers'
+            # business (the formation of a node is a multiset position list, the schedule relies on one entry per call)
+            for d in writes(fd):
+                if (d.info.get("callee") or "").endswith("::push") and not fd.cfg.postdominates(d.instr.bb, 0):
+                    ok = False
+                    detail += "; the push at %s happens only on some paths: the returned formation can lack the vehicle the caller books on the node" % d.instr.line()
         if fn in ("remove", "replace"):
             idx_call = [c for c in fd.body.calls() if (c.callee or "").split("::")[-1] in ("remove", "swap_remove", "index_mut", "insert")
                         and "Vec" in (c.callee or "")]
@@ -291,6 +306,11 @@ def rules(ctx):
         miss = [n for ch, n in need.items() if ch not in s.channels]
         ctx.decide(o, not miss, "all five collections are written", "update_tours never writes: %s" % ", ".join(miss))
     tour_vanishes_rule(ctx)
+    from .C12 import none_means_all_reachable
+    before = len(ctx.obligations)
+    none_means_all_reachable(ctx)      # what override/fit displace is decided by these two searches
+    for ob in ctx.obligations[before:]:
+        ob.id = ob.id.replace("C13/R1.", "C13/R4.searches.")
     positions_count_path_nodes(ctx)
     from . import formulas as _fm
     _fm.remove_segment_guard(ctx, "R4")
